@@ -25,7 +25,7 @@ fn be_slices(sh: Shape) -> BoxedStrategy<Bytes> {
         1 => prop_oneof![Just(0usize), Just(1), Just(nb - 1), Just(nb + 1), Just(2 * nb), Just(2 * nb + 2)],
     ];
     let boundary = prop_oneof![Just(0x00u8), Just(0x01), Just(0x7f), Just(0x80), Just(0xff), any::<u8>()];
-    (lens, gen::pattern(sh), 0u8..6, boundary, any::<u8>(), any::<u16>())
+    (lens, gen::pattern(sh), 0u8..8, boundary, any::<u8>(), any::<u16>())
         .prop_map(move |(len, payload, excess_class, bbyte, foreign, fpos)| {
             // payload: the value bytes, big-endian
             let mut be: Vec<u8> = payload.0.iter().rev().cloned().collect();
@@ -49,7 +49,20 @@ fn be_slices(sh: Shape) -> BoxedStrategy<Bytes> {
                 }
             };
             let mut s = vec![fill; k];
-            if excess_class >= 3 {
+            if excess_class >= 6 {
+                // every excess digit independently pure 0x00 or pure 0xFF (a whole digit of the opposite padding)
+                let mut bits = fpos as u32 | ((foreign as u32) << 16);
+                let mut end = k;
+                while end > 0 {
+                    let start = end.saturating_sub(db);
+                    let b = if bits & 1 == 1 { 0xffu8 } else { 0x00 };
+                    for x in &mut s[start..end] {
+                        *x = b;
+                    }
+                    bits = bits.rotate_right(1);
+                    end = start;
+                }
+            } else if excess_class >= 3 {
                 // one foreign byte at either end (or inside) of the excess region
                 let pos = match fpos % 3 {
                     0 => 0,
@@ -155,7 +168,7 @@ fn main() {
     runner::main(
         Property {
             id: "C15",
-            rule: "Byte strings of length 0..=2*BYTES+2 (every residue modulo the digit size; shorter, equal, longer than BYTES), built big-endian as [excess region][first significant byte][payload]: excess pure 0x00 / pure 0xFF / matching the sign / with one foreign byte at its first, last or a random position; first significant byte in {0x00, 0x01, 0x7F, 0x80, 0xFF, random}; structured payload; the little-endian slice is the reversal. Oracle: the bytes read as an unsigned (U) or two's-complement (I, sign from the most significant byte) number in the reference integer; Some(v) iff it fits; empty slice = 0. to_be/from_be reverse and to_le/from_le keep the byte order of the pattern on this little-endian target and are mutually inverse. The nightly half (checks-nightly) checks to_/from_{be,le,ne}_bytes: big-/little-endian two's-complement bytes, exact inverses in both directions, ne = le. NON-TRIVIAL: slice length != BYTES or not a multiple of the digit size; for the swaps: a non-palindromic pattern. distinct = distinct (profile, job, inputs) by 64-bit hash. Exhaustive: all byte strings of length <= 2 and a 3-byte grid into the 8- and 16-bit types.",
+            rule: "Byte strings of length 0..=2*BYTES+2 (every residue modulo the digit size; shorter, equal, longer than BYTES), built big-endian as [excess region][first significant byte][payload]: excess pure 0x00 / pure 0xFF / matching the sign / with one foreign byte at its first, last or a random position / every excess digit independently pure 0x00 or pure 0xFF; first significant byte in {0x00, 0x01, 0x7F, 0x80, 0xFF, random}; structured payload; the little-endian slice is the reversal. Oracle: the bytes read as an unsigned (U) or two's-complement (I, sign from the most significant byte) number in the reference integer; Some(v) iff it fits; empty slice = 0. to_be/from_be reverse and to_le/from_le keep the byte order of the pattern on this little-endian target and are mutually inverse. The nightly half (checks-nightly) checks to_/from_{be,le,ne}_bytes: big-/little-endian two's-complement bytes, exact inverses in both directions, ne = le. NON-TRIVIAL: slice length != BYTES or not a multiple of the digit size; for the swaps: a non-palindromic pattern. distinct = distinct (profile, job, inputs) by 64-bit hash. Exhaustive: all byte strings of length <= 2 and a 3-byte grid into the 8- and 16-bit types.",
             assumptions: &[
                 "digits()/from_digits()/to_bits()/from_bits() are the trusted observation channel",
                 "x86-64 is little-endian: the cfg(target_endian = \"big\") arms are never compiled and are not decided",
